@@ -198,6 +198,11 @@ def main(inp, outp):
         seen_classes.add((kind.name, last["op"], cls, len(calls), bool(listeners)))
         samples = [g for g in (got or []) if g[2] is None]
         got_dates = [round(g[0], 6) for g in samples]
+        if exp == ["raise"] and cls == "backward-range" and err is None and got_dates == []:
+            # the ephemeris' backward ranges yield nothing at all (known root cause), so the bounds are never looked at either
+            clause(f"{kind.name}: yields exactly the dates of the range / list, in order, none beyond stop", False,
+                   f"{kind.name}/backward-range", f"{last}: yielded nothing (a refusal was expected: outside the table)", data)
+            continue
         if exp == ["raise"]:
             clause(f"{kind.name}: dates outside the table are refused", err is not None and "ValueError" in err,
                    f"{kind.name}/not-refused", f"expected ValueError, got {got_dates if err is None else err}", data)
@@ -232,9 +237,12 @@ def main(inp, outp):
             dp = float(np.linalg.norm(a[:3] - b[:3]))
             dv = float(np.linalg.norm(a[3:] - b[3:]))
             if kind.name == "keplernum":
-                # interpolation error: a few millimetres mid-table, up to ~1 cm when the start is interpolated in the
-                # last interval of the pre-roll table (measured 11 mm); anything above 3 cm is not interpolation error
-                tol_p, tol_v = 3e-2, 1e-4
+                # iter() and a fresh propagate() integrate along different grids (backwards to the start, then forwards on a grid
+                # anchored at the start): they agree to the truncation error of the integrator plus the interpolation error, both
+                # negligible at the 20 s step used here (RK4: < 0.5 mm) - with 60 s steps the same comparison measured 11-30 mm
+                # What remains is the time resolution of the re-sampling: Ephem interpolates on float MJDs (0.6 us at these
+                # dates; measured 8 mm = 1.1 us x 7.5 km/s), hence 2 mm + |v| x 2 us
+                tol_p, tol_v = 2e-3 + 2e-6 * float(np.linalg.norm(b[3:])), 5e-5
             elif kind.name == "ephem":
                 tol_p, tol_v = 1e-6, 1e-9
             else:
